@@ -200,6 +200,14 @@ pub struct Config {
     /// values may repeat: equal values written concurrently to a register, equal elements in a GList
     #[serde(default)]
     pub dup_values: bool,
+    /// C19 crash-point enumeration: after every applied state change the touched replica is serialised,
+    /// deserialised and replaced by the restored value (the original lives on as its twin)
+    #[serde(default)]
+    pub bounce_every: bool,
+    /// C09 redundancy enumeration at every prefix: after every applied state change every known op is
+    /// re-applied and every subsumed state re-merged into a clone of the touched replica
+    #[serde(default)]
+    pub redundancy_every: bool,
 }
 
 impl Config {
